@@ -28,7 +28,11 @@ pub struct Config {
     pub universe: u32,
     pub seed: u64,
     /// Log the structural hook in full (needed by trace validation).
-    pub full_hook: bool
+    pub full_hook: bool,
+    /// Project the caches only after every n-th call (1 = always). Used by the
+    /// large-scale self-consistency runs, where only the structural facets are
+    /// evaluated and object identities are not tracked.
+    pub project_every: u64
 }
 
 /// usize as the specification reads it: two's complement, so that values near
@@ -751,6 +755,18 @@ impl Session {
             }
         }
 
+        if self.cfg.project_every > 1 && self.step % self.cfg.project_every != 0 {
+            // light step: no projection, identities not tracked
+            if let Some((id, cache)) = created.take() {
+                if let Some(old) = self.caches.insert(id, cache) {
+                    std::mem::forget(old);
+                }
+            }
+            let _ = reg_anomalies_take();
+            return json!({"i": self.step, "c": c, "a": a.clone(), "light": true,
+                          "tag": ret["tag"], "panic": panic_json, "fired": fired});
+        }
+
         // ---- resolve identities relative to the previous state of cache c
         for f in ["key", "val"] {
             if let Some(t) = ret[f].as_u64() {
@@ -1046,4 +1062,62 @@ impl IterKinds {
         matches!(name, "iter" | "keys" | "values" | "drain" | "into_iter" | "into_keys"
             | "into_values")
     }
+}
+
+
+/// Self-consistency of what the real cache reports about itself (no expected
+/// values involved): (facet, what it should be, what it is). Used by the replay
+/// comparison and by the large-scale runs.
+pub fn self_facets(ev: &Value) -> Vec<(String, Value, Value)> {
+    let mut out = Vec::new();
+    let st = &ev["st"];
+
+    if st["alive"] != true {
+        return out;
+    }
+
+    let mut eq = |name: &str, e: Value, a: Value| out.push((name.to_string(), e, a));
+    eq("trav", json!(true), st["trav"].clone());
+
+    if st["trav"] != true {
+        return out;
+    }
+
+    let hook = &st["hook"];
+    let act_rows: Vec<Value> = st["ord"].as_array().cloned().unwrap_or_default();
+    let act_keys: Vec<Value> = act_rows.iter().map(|r| r[0].clone()).collect();
+    let recs: Vec<Value> = hook["fwd"].as_array()
+        .map(|v| v.iter().map(|n| n[1].clone()).collect()).unwrap_or_default();
+    let es: Vec<Value> = act_rows.iter().map(|r| r[3].clone()).collect();
+    eq("bound", json!(true), json!(dec(&st["cur"]) <= dec(&st["max"])));
+    eq("es_eq_rec", json!(es), json!(recs));
+    eq("sum_rec", st["cur"].clone(), json!(recs.iter().map(|v| v.as_i64().unwrap_or(0)).sum::<i64>()));
+    eq("len", json!(act_rows.len()), st["len"].clone());
+    eq("is_empty", json!(act_rows.is_empty()), st["is_empty"].clone());
+    let mut rev = act_keys.clone();
+    rev.reverse();
+    eq("mirror", json!(rev), st["rev"].clone());
+    eq("keysiter", json!(act_keys), st["keys"].clone());
+    eq("vals_ok", json!(true), st["vals_ok"].clone());
+    eq("lru", act_keys.first().cloned().unwrap_or(json!(0)), st["lru"].clone());
+    eq("mru", act_keys.last().cloned().unwrap_or(json!(0)), st["mru"].clone());
+    let fwd_buckets: Vec<Value> = hook["fwd"].as_array()
+        .map(|v| v.iter().map(|n| n[0].clone()).collect()).unwrap_or_default();
+    eq("ptr_iter", json!(fwd_buckets), st["nb"].clone());
+    eq("ptr_peek", json!(fwd_buckets), st["pb"].clone());
+    eq("dead", json!(0), st["dead"].clone());
+    eq("hook_cur", st["cur"].clone(), hook["cur"].clone());
+    let mut sorted_keys: Vec<i64> = act_keys.iter().map(|k| k.as_i64().unwrap_or(0)).collect();
+    sorted_keys.sort();
+    sorted_keys.dedup();
+    eq("nodup", json!(act_keys.len()), json!(sorted_keys.len()));
+    let probe: Vec<Value> = ev["probe"].as_array().cloned().unwrap_or_default();
+    let present: HashSet<i64> = act_keys.iter().map(|k| k.as_i64().unwrap_or(0)).collect();
+    let exp_probe: Vec<Value> = probe.iter().map(|p| {
+        let f = present.contains(&p[0].as_i64().unwrap_or(-1)) as i64;
+        json!([p[0], f, f, f, f])
+    }).collect();
+    eq("probe", json!(exp_probe), json!(probe));
+    eq("probe_ro", ev["fp"].clone(), ev["fp2"].clone());
+    out
 }
